@@ -14,7 +14,8 @@ type startInfo struct {
 	f      *Func
 	g      *Graph
 	info   *types.Info
-	commit *Node      // c.address = addr
+	commit *Node      // c.address = addr (the last such store)
+	commits []*Node   // every store to Client.address in Start
 	lineN  *Node      // the select clause that received the handshake line
 	parts  *types.Var // strings.Split(line, "|")
 	launch map[*Node]string
@@ -33,6 +34,7 @@ func (p *Prog) startInfo(c *Ctx, rule string) *startInfo {
 			for _, l := range as.Lhs {
 				if SelField(si.info, l) == addrF {
 					si.commit = n
+					si.commits = append(si.commits, n)
 				}
 			}
 		}
@@ -113,16 +115,27 @@ func (si *startInfo) varsFromCall(p *Prog, pred func(*ast.CallExpr) bool) (vars 
 	return nil, nil
 }
 
+// anyCommit: pred holds for one of the stores to Client.address (every one of
+// them marks a handshake as accepted).
+func (si *startInfo) anyCommit(pred func(*Node) bool) bool {
+	for _, m := range si.commits {
+		if pred(m) {
+			return true
+		}
+	}
+	return false
+}
+
 // mustPassNode: every path from the line receive to the commit passes node n.
 func (si *startInfo) mustPassNode(n *Node) bool {
 	seen := si.p.FeasibleReach(si.f, []*Node{si.lineN}, func(x *Node) bool { return x == n }, nil)
-	return !seen[si.commit]
+	return !si.anyCommit(func(m *Node) bool { return seen[m] })
 }
 
 // gatePass: every path from the line receive to the commit takes one of the pass edges.
 func (si *startInfo) gatePass(pass func(*Edge) bool) bool {
 	seen := si.p.FeasibleReach(si.f, []*Node{si.lineN}, nil, pass)
-	return !seen[si.commit]
+	return !si.anyCommit(func(m *Node) bool { return seen[m] })
 }
 
 // R-GATE — required validations of the handshake line dominate the success commit.
@@ -266,7 +279,9 @@ func ruleGate(c *Ctx) {
 			if f.Type.Results != nil && len(f.Type.Results.List) > 0 && len(f.Type.Results.List[0].Names) > 0 {
 				addrRes, _ = info.Defs[f.Type.Results.List[0].Names[0]].(*types.Var)
 			}
-			ok := okAll && nres == 2 && g.DominatedBy(si.commit, func(x *Node) bool { return x == n || !reachable(g, si.lineN, x) })
+			ok := okAll && nres == 2 && !si.anyCommit(func(m *Node) bool {
+				return !g.DominatedBy(m, func(x *Node) bool { return x == n || !reachable(g, si.lineN, x) })
+			})
 			_ = addrRes
 			pathOK := si.gatePass(func(e *Edge) bool { return e.From == n }) // every line path passes PluginToHost
 			report("G-addr", ok && pathOK, n.Ast, "network tcp/unix selects ResolveTCPAddr/ResolveUnixAddr on the translated address of fields 3 and 4; every accepting path passes the translation",
@@ -313,7 +328,7 @@ func ruleGate(c *Ctx) {
 				return false
 			}
 			seen := g.Reach([]*Node{si.lineN}, func(x *Node) bool { return x == certCall }, absent)
-			_, leak := seen[si.commit]
+			leak := si.anyCommit(func(m *Node) bool { _, r := seen[m]; return r })
 			ok := !leak
 			report("G-cert", ok, certCall.Ast, "every accepting path parses field 6 unless it established that the field is absent or too short to be a certificate (the parse error is returned per R-ERR)",
 				"a handshake line with a certificate field can be accepted without the certificate being parsed and pinned")
@@ -639,9 +654,17 @@ func ruleGateProtoMux(c *Ctx) {
 			at, isAt := edgeAtom(info, e)
 			return isAt && at.Kind == "bool" && at.True && identObj(info, at.X) == muxV
 		})
-		if _, leak := seen[si.commit]; leak {
+		if leak := si.anyCommit(func(m *Node) bool { _, r := seen[m]; return r }); leak {
 			okPass = false
 		}
+	}
+	// ... and no accepting path goes around the gate: every path from the line
+	// receive to a commit evaluates the multiplexing request
+	if !si.gatePass(func(e *Edge) bool {
+		at, isAt := edgeAtom(info, e)
+		return isAt && at.Kind == "bool" && SelField(info, at.X) == muxF
+	}) {
+		okPass = false
 	}
 	// failing edges for "missing" and "false" return the sentinel (or wrap it with %w)
 	isSentinelReturn := func(x *Node) bool {
